@@ -100,11 +100,12 @@ CHECKS = {
          'histories of ANY length: an identical re-run - and any number of them after any history - leaves the file system literally unchanged, bytes and '
          'mtimes (C17_idempotent, C17_idempotent_history); after any history every file the last run is responsible for whose generated bytes are non-empty '
          'holds exactly what a run into an empty location produces (C17_fresh); a closed form says a responsible file is written iff its bytes differ and '
-         'the new bytes are non-empty (C17_write_iff_changed); files outside the run\'s reach are untouched (C17_untouched, _history). Two carve-outs are '
-         'stated exactly and the unrestricted statements refuted by witnesses: empty generated output leaves a stale file in place '
-         '(C17_empty_output_keeps_file, C17_fresh_refuted; the real tool was never seen to produce one), and Swift\'s shared Codable.swift is re-stamped by '
-         'EVERY run because it is compared without the newline it is written with (C17_codable_rewritten_every_run, C17_idempotent_refuted) - a genuine '
-         'defect of the unchanged tree, recorded as known finding C17-swift-codable-rewritten. Tied to the code through the REAL BINARY: histories of up to '
+         'the new bytes are non-empty (C17_write_iff_changed); files outside the run\'s reach are untouched (C17_untouched, _history). Swift\'s shared Codable.swift is covered with no '
+         'carve-out: an up-to-date file (contents plus the newline) is left untouched, anything else under that name is replaced '
+         '(C17_codable_up_to_date_untouched, C17_codable_stale_rewritten; the model follows /repo fix 0622333 - the finding C17-swift-codable-rewritten '
+         'this check discovered is now a fixed entry and a regression is a plain violation). One carve-out remains, stated exactly and with the '
+         'unrestricted statement refuted by a witness: empty generated output leaves a stale file in place (C17_empty_output_keeps_file, '
+         'C17_fresh_refuted; the real tool was never seen to produce an empty output). Tied to the code through the REAL BINARY: histories of up to '
          '6 runs over 2-4 mutated versions of 1-4-crate source trees, -o and -d, six languages, empty and pre-seeded locations, transient parse errors and '
          'generation failures; after every run bytes and last-writer of every file are compared with the model and judged by the extracted Spec predicates.',
     note=NOTE_COMMON + 'The model abstracts the real file system: a finite map path -> (bytes, mtime) with one clock value per run; no directories, permissions, '
